@@ -192,7 +192,8 @@ def r7_1(ctx, R, mus, placement_only=False):
                 for wbb, wt, wfn in direct_sites(b, RE_MU_WRITE):
                     tgt = strip_refs(fl.operand_expr(wt["args"][0]))
                     idx = _index_local_expr(fl, tgt)
-                    val = fl.operand_expr(wt["args"][1])
+                    from lib_flow import see_through_fn_items
+                    val = see_through_fn_items(fl.operand_expr(wt["args"][1]))
                     i_ok = idx is not None and idx[0] == "proj" and idx[1][0] == "call" and idx[1][3] == dbb and \
                         idx[2] == ("@Ready", ".0", "@Some", ".0", ".0")
                     v_ok = val[0] == "proj" and val[1][0] == "call" and val[1][3] == dbb and \
@@ -424,6 +425,22 @@ def r7_5(ctx, R, mus):
                 if is_err:
                     p = v[2][0]
                     err_ok = p[0] == "proj" and p[1][0] == "call" and (p[1][1] in vac or p[1][3] in [d_[0] for d_ in drains]) and p[2][-2:] == ("@Err", ".0")
+                if is_err and not err_ok:
+                    # the error may travel through the verdict of an inlined helper (`Collected::Failed(i, e)`) and a callable
+                    # that is a std function item (`identity`): what it is along every path returning here
+                    from lib_flow import sensitive_paths, path_const_feasible, PathEval, reduce_proj, see_through_fn_items
+                    vs = []
+                    try:
+                        for kind_, pth, know in sensitive_paths(b, fl, 2):
+                            if kind_ != "return" or bb not in pth or not path_const_feasible(b, pth):
+                                continue
+                            r_ = PathEval(b, pth).local_expr(0)
+                            if r_[0] == "agg" and r_[1].endswith("Poll::Ready") and r_[2] and r_[2][0][0] == "agg" and r_[2][0][1].endswith("Result::Err"):
+                                vs.append(see_through_fn_items(reduce_proj(r_[2][0][2][0])))
+                    except RuntimeError:
+                        vs = []
+                    err_ok = bool(vs) and all(p_[0] == "proj" and p_[1][0] == "call" and (p_[1][1] in vac or p_[1][3] in [d_[0] for d_ in drains])
+                                              and p_[2][-2:] == ("@Err", ".0") for p_ in vs)
                 ok = (under_none and from_buf) or err_ok
                 ctx.ob("R7.5", b, "ready-value#%d" % n, ok, b.loc(bb),
                        "under Ready(None)=%s from taken buffer=%s err-payload=%s : %s" % (under_none, from_buf, err_ok, expr_str(e)))
